@@ -24,7 +24,8 @@ func ConvertToValue(structure json.Structure) value.Primary {
 		p = value.NewString(structure.(json.String).Raw())
 	case json.Boolean:
 		p = value.NewBoolean(structure.(json.Boolean).Raw())
-	case json.Null:
+	case json.Null, nil:
+		// an empty json text decodes to no structure at all
 		p = value.NewNull()
 	default:
 		p = value.NewString(structure.Encode())
